@@ -17,7 +17,7 @@ Decided clauses
   D. RF-TABLE: pointer keys written = keys read = key tested by the detector; the detector requires a
      zero-row batch without a log level.
   E. Client upload path: the bytes PUT to the vended upload URL are the bytes the pointer body is built from,
-     the pointer names the *download* URL, both URLs pass the validator before the PUT, the pointer batch
+     the pointer names the *download* URL, the pointer batch
      keeps the request's schema and dispatch metadata.
   F. Every framework read site resolves external pointers and continues with the resolved batch.
 """
@@ -38,7 +38,7 @@ META = {
     "normal return iff exactly one data batch, decided by evaluating the count guards for 0..3; schema of the returned batch compared with "
     "the pointer's), dataflow of schema/URL/digest from the pointer metadata into the fetch, writer siblings hash the uncompressed stream "
     "before compression and pass digest + stream schema to the pointer, key-set agreement between pointer writer / reader / detector, and "
-    "the client upload path (PUT body = pointer source, download URL in the pointer, validator before PUT).",
+    "the client upload path (PUT body = pointer source, download URL in the pointer, request schema and dispatch metadata kept).",
     "technique": "static analysis: CFG dominance/reachability with guard evaluation (mini_eval), reaching-definition checks, sibling table agreement",
     "note": "Decides the integrity gates of the external-location reader and the digest/schema agreement of its writers. Not decided: "
     "transparency of delivered values for arbitrary programs (pyarrow IPC round trip), storage back ends, log messages of a payload "
@@ -452,18 +452,6 @@ def _client_upload(ctx: Ctx) -> None:
 
     ctx.check(url_root(put.args[0] if put.args else None) == "upload_url" and url_root(bargs.get("location_url")) == "download_url", "RF-TABLE", "pointer-names-download-url", ex, bcall,
               ok="PUT goes to upload_url, the pointer names download_url", bad=f"PUT target is {url_root(put.args[0] if put.args else None)!r}, pointer URL is {url_root(bargs.get('location_url'))!r}")
-    vcalls = [c for c in calls(ex) if isinstance(c.func, ast.Name) and c.func.id == "url_validator"]
-    vroots = {url_root(c.args[0]) for c in vcalls if c.args}
-    none_edges: set[tuple[int, int]] = set()
-    for n in walk_scope(ex.node):
-        if isinstance(n, ast.If) and names_in(n.test) == {"url_validator"}:
-            none_edges |= cfg.test_edges(n, _taken(cfg, n, {"url_validator": None}))
-    ok = {"upload_url", "download_url"} <= vroots
-    if ok:
-        for v in vcalls:
-            ok = ok and not (cfg.reach({cfg.entry}, set(cfg.done(v)), none_edges) & cfg.attempt(put))
-    ctx.check(ok, "RF-DOM", "upload-urls-validated-before-put", ex, put, ok="both vended URLs pass the configured validator before anything is sent to them",
-              bad="the PUT can be issued before upload_url and download_url passed the validator")
     # _build_pointer_request_body
     mk = one([c for c in calls(bp) if last_attr(c) == "make_external_location_batch"], "make_external_location_batch call", bp)
     st = one([c for c in calls(bp) if last_attr(c) == "new_ipc_stream"], "new_ipc_stream call", bp)
